@@ -7,11 +7,13 @@ CONSTANTS
   Shapes <- S_wmL_wmS
   Ctl <- C_pingpong_closeping
   Closer = FALSE
+  Rd <- R_none
   ControlTakesLock = TRUE
   FlushAtomic = TRUE
   LatchChecked = TRUE
   CloseLatches = TRUE
   TimeoutReleases = FALSE
+  HandlerControlPath = TRUE
   Fifo = TRUE
   OnlyBad = FALSE
   Family = "twocalls"
